@@ -9,4 +9,7 @@ def jobs(tier):
         out.append(Job('store-f%d' % f, 'pow.cpp', 'h_c19_store', [f], reach=['hashed'], bounds='filename %d B, everything else symbolic' % f))
     for z in ((4,) if tier == 'quick' else (4, 32)):
         out.append(Job('node-counter-nz%d' % z, 'node_leaf.cpp', 'h_c19_node_counter', [z], reach=['counted'], bounds='core/Node.cpp counter, first non-zero byte within %d bytes' % (z + 1), timeout=1500))
+    # the handshake gate uses the PoW verdict of THIS (key, nonce): histories of handshakes through the real perform_handshake (shared with C20)
+    from props.C20 import SN as SN20, R as R20
+    out.append(Job('handshake-history-pow-k3', 'node_hs.cpp', 'h_c20_history_pow', [3], defines=['VERIF_POW_STUB=1'], reach=['accepted', 'rejected'], snippets=SN20, redirect=R20, timeout=2400, bounds='3 handshakes of one claimed peer through Node::perform_handshake with a stand-in PoW predicate'))
     return out
